@@ -1,7 +1,7 @@
 (* SqlFmt/Properties.v — C16: SQL reformatting preserves statements (expression fragment, token level). *)
 From Common Require Import Base.
 From Coq Require Import Ascii String.
-From SqlFmt Require Import PrecClimb PrecClimbProofs Model Proofs.
+From SqlFmt Require Import PrecClimb PrecClimbProofs Model Proofs LexProofs.
 Open Scope N_scope.
 
 (* The property for the modelled fragment, at full strength: for the real tier table and the real keyword table,
@@ -36,6 +36,18 @@ Theorem C16_quote_string : forall s, lex (quote 39 s) = LOk [(3, s, false)].
 Proof. exact lex_quote_string. Qed.
 Theorem C16_quote_ident : forall s, lex (quote 34 s) = LOk [(1, s, true)].
 Proof. exact lex_quote_ident. Qed.
+
+(* TEXT level: the text the (repaired) printer writes lexes to exactly the token list of the token printer, for every
+   tree with eokb = true (operators of the real tiers, digit-string numbers, any name, any string, a minus applied to
+   a tree starting with a minus only where that is directly another minus) *)
+Theorem C16_text_lex : forall kws a, eokb a = true -> lex (render true kws a) = LOk (sprint kws a).
+Proof. exact lex_render_text. Qed.
+
+(* hence the statement of the property for text: what the parser returned is read back from the printed TEXT *)
+Theorem C16_reparse_text : forall kws ts a,
+  covers kws = true -> sparse sql_tbl ts = Some a -> eokb a = true ->
+  exists ts', lex (render true kws a) = LOk ts' /\ sparse sql_tbl ts' = Some a.
+Proof. exact sql_reparse_text. Qed.
 
 (* the pinned tables pass the computable checks *)
 Theorem C16_tables_ok : wf_table str_eqb sql_tbl = true /\ covers kws_pinned = true.
@@ -75,5 +87,8 @@ Proof.
     + do 3 apply WF_skip. apply WF_atom. reflexivity.
     + do 2 apply WF_skip. apply WF_atom. reflexivity.
 Qed.
+Example C16_text_ex :
+  exists a, sparse sql_tbl ex_toks = Some a /\ eokb a = true.
+Proof. eexists. split; vm_compute; reflexivity. Qed.
 Example C16_quote_ex : lex (quote 39 (L "it's")) = LOk [(3, L "it's", false)].
 Proof. vm_compute. reflexivity. Qed.
